@@ -75,7 +75,9 @@ def handle : List String → String
     match decNat idx, decStrs lines with
     | some i, some ls =>
       let t := parse { ios := true, delims := ['!'], ignoreBlank := false } ls
-      if i < t.size then intfAnswer t i else "oob"
+      if i < t.size then
+        (if isIntfLine (Typed.text t i) then intfAnswer t i else "notintf")
+      else "oob"
     | _, _ => "bad-request"
   | ["route", line] =>
     match decStr line with
